@@ -176,6 +176,33 @@ def getPos (c : Cursor) : Nat := c.pos
 def seek (c : Cursor) (p : Nat) : Option Cursor :=
   if p > c.buf.length then none else some { c with pos := p }
 
+/-- `new_at_pos_mut` / `new_at_write_end_mut`: the same code over `buf.as_mut().len()`
+    (for buffers that implement `AsMut` but not `AsRef`) -/
+def newAtPosMut (buf : List Nat) (pos : Nat) : Option Cursor :=
+  if pos > buf.length then none else some ⟨buf, pos⟩
+def newAtWriteEndMut (buf : List Nat) : Cursor := ⟨buf, buf.length⟩
+
+/-- `as_view`: a `Cursor<Word, &[Word]>` over the same words at the same position -/
+def asView (c : Cursor) : Cursor := ⟨c.buf, c.pos⟩
+/-- `as_mut_view`: a `Cursor<Word, &mut [Word]>` over the same words at the same position;
+    what is written through it is written into the parent's buffer (see `Backend.xstep`) -/
+def asMutView (c : Cursor) : Cursor := ⟨c.buf, c.pos⟩
+/-- `cloned`: a deep copy -/
+def cloned (c : Cursor) : Cursor := ⟨c.buf, c.pos⟩
+
+/-- `IntoReadWords<Word, Stack>::into_read_words`, `AsReadWords<Word, Stack>::as_read_words`
+    (over `self.as_ref()`), and the `…SeekReadWords` variants, which call them:
+    `Cursor::new_at_write_end` -/
+def intoReadWordsStack (buf : List Nat) : Cursor := newAtWriteEnd buf
+def asReadWordsStack (buf : List Nat) : Cursor := newAtWriteEnd buf
+def intoSeekReadWordsStack (buf : List Nat) : Cursor := intoReadWordsStack buf
+def asSeekReadWordsStack (buf : List Nat) : Cursor := asReadWordsStack buf
+/-- the `Queue` flavours: `Cursor::new_at_write_beginning` -/
+def intoReadWordsQueue (buf : List Nat) : Cursor := newAtWriteBeginning buf
+def asReadWordsQueue (buf : List Nat) : Cursor := newAtWriteBeginning buf
+def intoSeekReadWordsQueue (buf : List Nat) : Cursor := intoReadWordsQueue buf
+def asSeekReadWordsQueue (buf : List Nat) : Cursor := asReadWordsQueue buf
+
 /-- what safe code can do through `buf_mut()`: put any other contents (in particular a
     shorter buffer: `truncate`, `clear`, `*c.buf_mut() = &[]`) under the same `pos` -/
 def bufMutSet (c : Cursor) (ws : List Nat) : Cursor := { c with buf := ws }
@@ -360,6 +387,9 @@ structure Callback where
 def Callback.write (cb : Callback) (w : Nat) : Bool × Callback :=
   if cb.failAt.contains cb.calls then (false, { cb with calls := cb.calls + 1 })
   else (true, { cb with log := cb.log ++ [w], calls := cb.calls + 1 })
+
+/-- `into_inner`: the callback itself, with whatever it has captured -/
+def Callback.intoInner (cb : Callback) : Callback := cb
 
 /-- default `extend_from_iter` over the callback -/
 def Callback.extend : Callback → List Nat → Out × Callback
@@ -595,6 +625,71 @@ def run : Backend → List Op → List Out × Except Fault Backend
     match step b op with
     | .ok (o, b') => (o :: (run b' ops).1, (run b' ops).2)
     | .error f => ([], .error f)
+
+/-! ### ops that create a temporary second object -/
+
+inductive ViewKind where
+  | shared   -- `as_view()`: `Cursor<Word, &[Word]>`, read-only
+  | mutable  -- `as_mut_view()`: `Cursor<Word, &mut [Word]>`
+  | cloned   -- `cloned()`: `Cursor<Word, Vec<Word>>`
+  deriving Repr, DecidableEq
+
+inductive XOp where
+  | base (op : Op)
+  /-- make the view / copy of the (inner) cursor, run `prog` on it, drop it -/
+  | view (k : ViewKind) (prog : List Op)
+  /-- `into_inner()`, call the returned callback with `w` directly, wrap it again with `new` -/
+  | intoInnerCall (w : Nat)
+  deriving Repr
+
+inductive XOut where
+  | one (o : Out)
+  | many (os : List Out)
+  deriving Repr
+
+/-- the parent cursor after the temporary object is gone: only a `&mut` view shares the words,
+    and even it has its own copy of the position -/
+def viewParent (k : ViewKind) (parent : Cursor) (final : Cur) : Cursor :=
+  match k with
+  | .mutable => { parent with buf := final.inner.buf }
+  | _ => parent
+
+def viewStart (k : ViewKind) (c : Cursor) : Cursor :=
+  match k with
+  | .shared => c.asView
+  | .mutable => c.asMutView
+  | .cloned => c.cloned
+
+def viewWritable (k : ViewKind) : Bool :=
+  match k with
+  | .shared => false
+  | _ => true
+
+/-- a view op on a cursor state (`Reverse<Cursor>`: on its `.0`) -/
+def Cur.viewStep (k : ViewKind) (s : Cur) (prog : List Op) : M (List Out × Cur) :=
+  match Cur.run (viewWritable k) (.fwd (viewStart k s.inner)) prog with
+  | (outs, .ok final) =>
+    .ok (outs, match s with
+      | .fwd c => .fwd (viewParent k c final)
+      | .rev r => .rev ⟨viewParent k r.inner final⟩)
+  | (_, .error f) => .error f
+
+def xstep : Backend → XOp → M (XOut × Backend)
+  | b, .base op =>
+    match step b op with
+    | .ok (o, b') => .ok (.one o, b')
+    | .error f => .error f
+  | cur wr s, .view k prog =>
+    if k = .mutable ∧ wr = false then .ok (.one .unsupported, cur wr s) else
+    match Cur.viewStep k s prog with
+    | .ok (outs, s') => .ok (.many outs, cur wr s')
+    | .error f => .error f
+  | b, .view _ _ => .ok (.one .unsupported, b)
+  | cbF cb, .intoInnerCall w =>
+    if (cb.intoInner.write w).1 then .ok (.one .ok, cbF (cb.intoInner.write w).2)
+    else .ok (.one .cbErr, cbF (cb.intoInner.write w).2)
+  | cbI cb, .intoInnerCall w => .ok (.one .ok, cbI (cb.intoInner.write w).2)
+  | b, .intoInnerCall _ => .ok (.one .unsupported, b)
 
 end Backend
 
